@@ -174,6 +174,7 @@ func optStream(c *Ctx, n int) {
 	r := c.R
 	optOne := func(kind string, rd []byte) {
 		wire := assembleRR(nil, dns.TypeOPT, 1232, 0, rd)
+		wire = wire[:len(wire):len(wire)] // nothing behind the record: a read past its end is a panic, not a quiet success
 		desc, rep := "none", "none"
 		guard(func() string {
 			rr, off, err := dns.UnpackRR(wire, 0)
@@ -200,6 +201,7 @@ func optStream(c *Ctx, n int) {
 	svcOne := func(kind string, typ uint16, params []byte) {
 		rd := append([]byte{0, 1, 0}, params...) // priority 1, target "."
 		wire := assembleRR([][]byte{[]byte("s")}, typ, 1, 60, rd)
+		wire = wire[:len(wire):len(wire)]
 		desc, rep := "none", "none"
 		guard(func() string {
 			rr, off, err := dns.UnpackRR(wire, 0)
@@ -242,6 +244,26 @@ func optStream(c *Ctx, n int) {
 				optOne("sweep", append(rd, d...))
 				if code <= 9 {
 					svcOne("sweep", dns.TypeSVCB, append(append([]byte{}, rd...), d...))
+				}
+			}
+		}
+	}
+	// client-subnet: every family, prefix lengths around the octet boundaries and limits, every address length — alone
+	// and followed by another option (octets read past the option's end would come from that one)
+	tail := append(putUint(putUint(nil, 2, 12), 2, 3), 0xAA, 0xBB, 0xCC)
+	for fam := 0; fam <= 3; fam++ {
+		for _, mask := range []int{0, 1, 7, 8, 9, 16, 24, 25, 31, 32, 33, 64, 127, 128, 129, 255} {
+			for _, scope := range []int{0, 24, 32, 33, 128, 129} {
+				for al := 0; al <= 17; al++ {
+					d := []byte{0, byte(fam), byte(mask), byte(scope)}
+					for i := 0; i < al; i++ {
+						d = append(d, byte(0x11*(i+1)))
+					}
+					rd := append(putUint(putUint(nil, 2, 8), 2, uint64(len(d))), d...)
+					optOne("subnet", rd)
+					if scope == 0 {
+						optOne("subnet", append(append([]byte{}, rd...), tail...))
+					}
 				}
 			}
 		}
